@@ -3,10 +3,11 @@ import PlasVerif.Generated.Config
 import PlasVerif.Spec.Config
 /-!
 Driver of C16.  Request words (after `C16 <stream>`), each directive one word, fields separated by `/`:
-  `opt/<sec>/<key>/<ty>/<default>/<flags,>/<noflags,>`  custom table entry (none given → the generated table)
+  `opt/<sec>/<key>/<ty>/<default>/<flags,>/<noflags,>/<dest>`  custom table entry (none given → the generated table)
   `file`  `sec/<S>`  `kv/<K>/<V>`  `occ/<flag>/<arg>/…`
 strings `s<cp>.<cp>…`; values `s…`, `i<int>`, `f<m>:<e>`, `b0|b1`, `l<s…>,<s…>`, `d<s…>=<atom>,…`.
-Answer: `ok:<v>|<v>|…` (read-back of every option; `e:<Err>` per option) or `err:<Err>`; spec column same or `-`.
+Answer: `ok:<v>|<v>|…#<g>|<g>|…|U1` (`config[s][k]` of every option, `e:<Err>` per option; then `s.get(k, default)` of every
+option: `=` same as `config[s][k]`, `D` the default; `U1`: unknown key gives the default) or `err:<Err>`; spec column same or `-`.
 -/
 namespace PlasVerif.Driver.C16
 open PlasVerif.Driver PlasVerif.Model.Config PlasVerif.Spec.Config
@@ -82,8 +83,8 @@ structure Req where
 def step (r : Option Req) (w : String) : Option Req := do
   let r ← r
   match w.splitOn "/" with
-  | ["opt", sec, key, ty, d, fl, nfl] =>
-    let o : Opt := ⟨← str? sec, ← str? key, ← ty? ty, ← val? d, ← strs? fl, ← strs? nfl⟩
+  | ["opt", sec, key, ty, d, fl, nfl, dest] =>
+    let o : Opt := ⟨← str? sec, ← str? key, ← str? dest, ← ty? ty, ← val? d, ← strs? fl, ← strs? nfl⟩
     pure { r with table := o :: r.table }
   | ["file"] => pure { r with files := [] :: r.files }
   | ["sec", s] =>
@@ -106,12 +107,20 @@ def answer (asIs : Bool) (T : Table) (files : List File) (argv : List Occ) : Str
   let idx := List.range T.length
   let model := match run asIs T files argv with
     | .error e => s!"err:{errStr e}"
-    | .ok st => "ok:" ++ "|".intercalate (idx.map fun i => match readBack T st i with
+    | .ok st =>
+      let items := idx.map fun i => match readBack T st i with
         | .ok v => showVal v
-        | .error e => s!"e:{errStr e}")
+        | .error e => s!"e:{errStr e}"
+      let gets := idx.map fun i => match getDefault T st i with
+        | .ok none => "D"
+        | .ok (some v) => showVal v
+        | .error e => s!"e:{errStr e}"
+      let gs := (items.zip gets).map fun (p : String × String) => if p.1 == p.2 then "=" else p.2
+      "ok:" ++ "|".intercalate items ++ "#" ++ "|".intercalate (gs ++ ["U1"])
   let specSt := den T files argv
   let spec := if !inDomain T files argv then "-" else match idx.mapM fun i => (specSt i).bind fun _ => specReadBack T specSt (fuelFor T) i with
-    | some vs => "ok:" ++ "|".intercalate (vs.map showVal)
+    -- `section.get(key)` must give the same value as `section[key]`, and the default for an unknown key
+    | some vs => "ok:" ++ "|".intercalate (vs.map showVal) ++ "#" ++ "|".intercalate (vs.map (fun _ => "=") ++ ["U1"])
     | none => "-"
   s!"{model}\t{spec}"
 
